@@ -118,15 +118,18 @@ def cli_cases(ctx, n):
             q = gen_quals(rng, ln, base)
             reads.append((f"r{i}", "".join(rng.choice("ACGGT") for _ in range(ln)), q))
         cf, cb = rng.randint(0, 25), rng.randint(0, 25)
-        mode = rng.choice(["q2", "q1", "nextseq"])
+        mode = rng.choice(["q2", "q1", "nextseq", "both"])
+        ns = rng.randint(5, 25)
         argv = ["--quality-base", str(base)] if base != 33 else []
         if mode == "q2":
             argv += ["-q", f"{cf},{cb}"]
         elif mode == "q1":
             argv += ["-q", str(cb)]
             cf = 0
-        else:
+        elif mode == "nextseq":
             argv += ["--nextseq-trim", str(cb)]
+        else:   # both trimmers in one run (NextSeq first, then -q): the reported figure is the sum of what both removed
+            argv += ["-q", f"{cf},{cb}", "--nextseq-trim", str(ns)]
         argv += ["-o", "{out:out.fastq}", "{in:in.fastq}"]
         inp = fastq([(n_, s, "".join(chr(x + base) for x in q)) for n_, s, q in reads])
         r = run_cli(argv, {"in.fastq": inp})
@@ -141,6 +144,10 @@ def cli_cases(ctx, n):
             if mode == "nextseq":
                 q2 = [cb - 1 if c == "G" else x for c, x in zip(s, q)]
                 a, b = 0, spec3(q2, cb)
+            elif mode == "both":
+                q2 = [ns - 1 if c == "G" else x for c, x in zip(s, q)]
+                stop = spec3(q2, ns)
+                a, b = spec_qtrim(q[:stop], cf, cb)
             else:
                 a, b = spec_qtrim(q, cf, cb)
             removed += len(s) - (b - a)
